@@ -1,7 +1,7 @@
 """C06 - the fast unsharded path never bypasses sharding.
 
 Specification: spec/StmtPolicy.tla part 2 (ParserSaysSharded, FastPathAllowed), spec/StmtPolicy_unshard_gen.tla.
-Binding: G.  TLC enumerates statement descriptors (kind, session database present?, 1..3 table references with class,
+Binding: G.  TLC enumerates statement descriptors (kind, session database: rule database / other / none, 1..3 table references with class,
 letter case, qualification, back-quotes, glued comment / line break, alias, position) and prints ParserSaysSharded(d);
 the Go harness renders the statement, asks the real parser based analysis (parser + plan.Checker / plan.BuildPlan, the
 reference the property names), calls SessionExecutor.preBuildUnshardPlan on the same text / db / router and also
@@ -17,7 +17,7 @@ MANIFEST = {
                 "references, exactly one of which names a table with a routing rule (sharded, linked or global) in every "
                 "combination of letter case, qualification (none / rule database / other database), back-quotes, glued comment "
                 "/ tab / line break before or after the name, alias and syntactic position (first, after comma, JOIN, "
-                "subquery, second FROM / INSERT..SELECT), with and without a session database (three references: at most one "
+                "subquery, second FROM / INSERT..SELECT), for sessions in the rule database, in another database and without a database (three references: at most one "
                 "decoration; quick: at most one decoration and two references plus a seeded sample); TLC checks that decorations, "
                 "order and unsharded references do not change ParserSaysSharded and emits it with each descriptor; each "
                 "descriptor is rendered to SQL and on the real code plan.Checker / plan.BuildPlan (reference) is compared "
